@@ -54,11 +54,85 @@ def streams(ctx):
             for pr in (0, 1):
                 ac.append("lbac %d %d %d %d %d %d %d %d" % (sq, y, t, pr, rng.getrandbits(32), cap, rng.choice((0, 1, 2, 3)), 0))
     return [c09.make_stream("lbs2-teams", s2, ctx=ctx), c09.make_stream("lbp2-teams", p2, ctx=ctx),
-            c09.make_stream("lbac-teams", ac, ctx=ctx)]
+            c09.make_stream("lbac-teams", ac, ctx=ctx)] + granted_streams(ctx)
+
+
+def granted_streams(ctx):
+    """"however many threads the OpenMP runtime actually grants": the same ops, which REQUEST several threads on inputs
+    above the parallel-split thresholds (1e7 for the tables, larger x for the algorithms), are run with the runtime
+    limited to 1, 2 and 3 threads (OMP_THREAD_LIMIT) and unrestricted; all four runs must print the same line, and
+    the unrestricted one is also compared with the model. With fewer granted threads the per-thread chunks of the
+    `omp for` table constructors run one after the other, which exposes chunk ranges that overlap or leave gaps."""
+    from .. import gen
+    rng = ctx.rng
+    T = 10 ** 7
+    ops = []
+    for _ in range(4 if ctx.quick else 25):
+        th = rng.choice((2, 3, 4, 5, 7))
+        z = rng.randint(th * T - T + 1, th * T + T // 2)
+        ops.append("ftdhash %d %d %d %d" % (rng.randint(1000, 10 ** 6), z, th + rng.choice((0, 1, 9)), rng.choice((16, 32))))
+        ops.append("fthash %d %d 32" % (rng.randint(th * T - T + 1, th * T + T // 2), th + rng.choice((0, 3))))
+        ops.append("pithash %d %d" % (30720 + rng.randint(th * T - T + 1, th * T + T // 2), th + rng.choice((0, 2))))
+    for x in gen.structured_x(rng, 2 * 10 ** 14, 10 ** 15, 3 if ctx.quick else 20):
+        sq, x13 = gen.isqrt(x), gen.iroot(3, x)
+        z = rng.randint(max(T + 1, x13 + 2), sq - 1)
+        y = rng.randint(x13 + 1, min(z, x13 * 30))
+        ops.append("ident_gourdon 64 %d %d %d %d 16" % (x, y, z, gen.get_k(x)))
+    for x in gen.structured_x(rng, 10 ** 11, 10 ** 13, 4 if ctx.quick else 30):
+        ops.append("algagree %d 16 lmo_parallel dr64 gourdon64 pi" % x)
+        ops.append("ident_dr 64 %d %d %d 16" % (x, min(gen.dr_y(rng, x, 0.3), gen.iroot(3, x) * 20), 8))
+    base = {}
+
+    def judge_for(tag):
+        def judge(ops_, impl, mops, model):
+            dis = []
+            for i, (o, a) in enumerate(zip(ops_, impl)):
+                if a in ("HANG", "CRASH", "SKIPPED"):
+                    continue
+                if tag == "all":
+                    base[o] = a
+                    m = model[i] if i < len(model) else ""
+                    if o.split()[0].endswith("hash") and a != m:
+                        dis.append(dict(index=i, op=o, impl=a, model=m))
+                    if o.startswith("algagree") and len(set(a.split())) != 1:
+                        dis.append(dict(index=i, op=o, impl=a, model="all algorithms equal"))
+                elif base.get(o) is not None and base[o] != a:
+                    dis.append(dict(index=i, op=o + "   [OMP_THREAD_LIMIT=%s]" % tag, impl=a,
+                                    model="%s (value with all requested threads granted)" % base[o],
+                                    env={"OMP_THREAD_LIMIT": tag}))
+            return dis
+        return judge
+
+    def mops_for(tag):
+        if tag == "all":
+            return lambda ops_, impl: [o if o.split()[0].endswith("hash") else "# " + o for o in ops_]
+        return lambda ops_, impl: ["# " + o for o in ops_]
+    out = []
+    for tag in ("all", "1", "2", "3"):
+        env = {"PCV_OP_TIMEOUT": "120"}
+        if tag != "all":
+            env["OMP_THREAD_LIMIT"] = tag
+        out.append(Stream("granted-threads-" + tag, ops, oracle=True, env=env, model_ops=mops_for(tag),
+                          judge=judge_for(tag), timeout=3000, classify=lambda o, r: o.split()[0]))
+    return out
 
 
 def generated_obligations():
     return 0
 
 
-search = c09.search
+def search(ctx, proof_broken, bad, dis):
+    """a value that changes with the number of GRANTED threads is itself the failing input (op + OMP_THREAD_LIMIT);
+    everything else (balancer traces, broken proofs) goes to the C09 search"""
+    from ..runner import emit_violation
+    mine = [d for d in dis if d.get("stream", "").startswith("granted-threads")]
+    rest = [d for d in dis if not d.get("stream", "").startswith("granted-threads")]
+    for d in mine[:5]:
+        emit_violation(ctx, "correspondence",
+                       "stream %s: the result depends on how many threads the OpenMP runtime grants" % d["stream"],
+                       dict(failing_input=d["op"], expected=d["model"], observed=d["impl"], stream=d["stream"],
+                            env=d.get("env"), key="granted:" + d["op"].split("   ")[0].replace(" ", "_"),
+                            replay_hint="OMP_THREAD_LIMIT=<n> <cache>/rel/pcharness  <<< '<op>'   vs the same without the limit"))
+    if rest or proof_broken or bad:
+        return c09.search(ctx, proof_broken, bad, rest)
+    return True
